@@ -621,6 +621,19 @@ fn run_path(path: &[Act]) -> Result<(), String> {
 }
 
 pub fn replay(c: &Value) -> Result<(), String> {
+    if c["corrupted"].is_string() {
+        #[cfg(feature = "unchecked")]
+        {
+            let mut acc = Acc::default();
+            corrupted_objects(&mut acc);
+            return match acc.violations.first() {
+                Some(v) => Err(v.what.clone()),
+                None => Ok(()),
+            };
+        }
+        #[cfg(not(feature = "unchecked"))]
+        return Err("this case needs the unchecked-feature build (replay through ./check --replay)".into());
+    }
     let path: Vec<Act> = c["path"]
         .as_array()
         .ok_or("path")?
@@ -630,9 +643,109 @@ pub fn replay(c: &Value) -> Result<(), String> {
     run_path(&path)
 }
 
+/// Corrupted objects can only be built through the `unsafe fn ..._unchecked` constructors of the
+/// `unchecked` feature.  The validity check, structural equality and Debug formatting are documented
+/// never to panic whatever the object contains, and the validity check must say "invalid".
+#[cfg(feature = "unchecked")]
+fn corrupted_objects(acc: &mut Acc) {
+    let z = |v: Vec<u8>| {
+        let mut a = v;
+        a.resize(64, 0);
+        a
+    };
+    let mut tail = z(vec![1, 2, 3]);
+    tail[63] = 9;
+    let cases: Vec<(&str, u8, Vec<u8>, Vec<u8>, u8, u8)> = vec![
+        ("log 31", 31, z(vec![1]), z(vec![]), 1, 0),
+        ("log 255", 255, z(vec![1]), z(vec![]), 1, 0),
+        ("len1 65", 3, z(vec![1; 64]), z(vec![]), 65, 0),
+        ("len1 255", 3, z(vec![1, 2]), z(vec![]), 255, 0),
+        ("len2 over the capacity", 3, z(vec![]), z(vec![1; 64]), 0, 200),
+        ("symbol 64", 3, z(vec![1, 64, 2]), z(vec![]), 3, 0),
+        ("symbol 255", 3, z(vec![]), z(vec![255]), 0, 1),
+        ("non-zero tail", 3, tail, z(vec![]), 3, 0),
+        ("everything", 77, z(vec![200; 64]), z(vec![201; 64]), 99, 98),
+    ];
+    macro_rules! one {
+        ($ty:ty, $name:expr, $cap2:expr) => {
+            for (what, log, a1, a2, l1, l2) in &cases {
+                let x1: [u8; 64] = arr(a1);
+                let x2: [u8; $cap2] = arr(a2);
+                acc.evaluations += 1;
+                acc.nontrivial += 1;
+                let r = guarded(|| {
+                    let h = unsafe { <$ty>::new_from_internals_raw_unchecked(*log, &x1, &x2, *l1, *l2) };
+                    let v = h.is_valid();
+                    let fe = h.full_eq(&h);
+                    let d = format!("{:?}", h);
+                    let other = <$ty>::new();
+                    let fe2 = h.full_eq(&other);
+                    (v, fe, d, fe2)
+                });
+                match r {
+                    Err(p) => acc.violation(
+                        format!("corrupted {} ({})", $name, what),
+                        format!("is_valid / full_eq / Debug panicked on a corrupted object: {}", p),
+                        json!({"corrupted": what, "type": $name}),
+                    ),
+                    Ok((v, fe, d, _)) => {
+                        // with the short type, "len2 over the capacity" etc. are all invalid by the reference predicate
+                        let ref_valid = refmodel::plain_valid(*log, &x1, *l1 as usize, &x2, *l2 as usize, <$ty>::IS_NORMALIZED_FORM);
+                        if v != ref_valid || !fe || (!v && !d.contains("ILL_FORMED")) {
+                            acc.violation(
+                                format!("corrupted {} ({})", $name, what),
+                                format!("is_valid = {} (reference {}), full_eq(self) = {}, Debug = {}", v, ref_valid, fe, &d[..d.len().min(120)]),
+                                json!({"corrupted": what, "type": $name}),
+                            );
+                        } else {
+                            acc.bump(if v { "valid" } else { "reported-invalid-without-panic" });
+                        }
+                    }
+                }
+            }
+        };
+    }
+    one!(RawFuzzyHash, "RawFuzzyHash", 32);
+    one!(LongRawFuzzyHash, "LongRawFuzzyHash", 64);
+    one!(FuzzyHash, "FuzzyHash", 32);
+    one!(LongFuzzyHash, "LongFuzzyHash", 64);
+    // un-normalized content in a normalizing type
+    acc.evaluations += 1;
+    acc.nontrivial += 1;
+    let x1: [u8; 64] = arr(&z(vec![5, 5, 5, 5, 5]));
+    let x2: [u8; 32] = [0; 32];
+    match guarded(|| {
+        let h = unsafe { FuzzyHash::new_from_internals_raw_unchecked(3, &x1, &x2, 5, 0) };
+        (h.is_valid(), format!("{:?}", h), h.full_eq(&h))
+    }) {
+        Ok((false, _, true)) => acc.bump("reported-invalid-without-panic"),
+        other => acc.violation("corrupted FuzzyHash (un-normalized)".into(), format!("{:?}", other), json!({"corrupted": "unnormalized", "type": "FuzzyHash"})),
+    }
+    // dual hashes with out-of-range symbols / log (lengths within capacity)
+    for (what, log, b1, b2) in [("symbol 64", 3u8, vec![1u8, 64, 64, 64, 64, 2], vec![]), ("log 200", 200, vec![1, 2], vec![3]), ("symbol 255 run", 3, vec![], vec![255; 9])] {
+        acc.evaluations += 1;
+        acc.nontrivial += 1;
+        let r = guarded(|| {
+            let d = unsafe { DualFuzzyHash::new_from_internals_near_raw_unchecked(log, &b1, &b2) };
+            (d.is_valid(), format!("{:?}", d))
+        });
+        match r {
+            Ok((false, _)) => acc.bump("reported-invalid-without-panic"),
+            other => acc.violation(format!("corrupted DualFuzzyHash ({})", what), format!("{:?}", other.map(|x| x.0)), json!({"corrupted": what, "type": "DualFuzzyHash"})),
+        }
+    }
+}
+
 pub fn run(ctx: &Ctx) -> Report {
     let mut rep = Report::new("model_checking");
     let thorough = ctx.tier == Tier::Thorough;
+    #[cfg(feature = "unchecked")]
+    {
+        let mut acc = Acc::default();
+        corrupted_objects(&mut acc);
+        acc.sample(json!({"corrupted": "log 255", "type": "RawFuzzyHash"}));
+        acc.into_report(&mut rep, "corrupted_objects_never_make_is_valid_full_eq_debug_panic(unchecked_feature_build)");
+    }
     // depth-1 sweep with the full menu (every constructor with every in / out-of-contract argument
     // set) from the initial state and from three populated base states
     let full = Menu::new(true);
